@@ -1,13 +1,198 @@
 /-
   Avt.Spec.C06 — oracle of property C06 (decidable predicates evaluated on implementation states;
   the same definitions the theorems in Avt/Props/C06.lean are stated with).
+
+  C06: scrolling stays inside its region and feeds the scrollback in order.
+
+  The specification is written as closed formulas over `take` / `drop` / `replicate` in the
+  vocabulary of the property text; it is NOT a copy of the model (`Buffer.scrollUp` has three
+  code paths — extend, insert-below-range, rotate+clear — the specification has one formula).
+
+  Covered functions (`coveredScroll`): LF (also IND/VT/FF, which the parser maps to `lf`), NEL, RI,
+  SU n, SD n, IL n, DL n, DECSTBM t b, and CR (auxiliary, so that "\r\n" can be folded).  The scroll
+  caused by auto-wrap on the bottom margin is specified by C04.
 -/
 import Avt.Spec.Base
 
 namespace Avt.Spec.C06
 open Avt Avt.Spec
 
-def checkStep (_ev : StepEv) : List Verdict := []
+/-! ### buffer level -/
+
+/-- the same row without its soft-wrap mark -/
+def unmark (l : Line) : Line := { l with wrapped := false }
+
+/-- clear the wrap mark of row `i` (nothing happens when there is no such row) -/
+def unmarkAt (v : List Line) (i : Nat) : List Line :=
+  v.take i ++ ((v.drop i).take 1).map unmark ++ v.drop (i + 1)
+
+/-- `k` blank rows carrying `pen` -/
+def blankRows (k cols : Nat) (pen : Pen) : List Line := List.replicate k (Line.blank cols pen)
+
+/-- wrap marks cleared before rows `s..e` are shifted up: the last row of the range stops being
+    continued by the row below it (when there is one), and the row above the range stops being
+    continued by the (departing) first row of the range -/
+def upMarks (s e rows : Nat) (v : List Line) : List Line :=
+  let v1 := if e < rows then unmarkAt v (e - 1) else v
+  if s > 0 then unmarkAt v1 (s - 1) else v1
+
+/-- scroll rows `s..e` of the view up by `n` (capped at the height of the range) -/
+def scrollUpSpec (s e n : Nat) (pen : Pen) (b : Buffer) : Buffer :=
+  let k := min n (e - s)
+  let v := upMarks s e b.rows b.view
+  { b with
+    sb := if s = 0 then b.sb ++ v.take k else b.sb
+    view := v.take s ++ (v.take e).drop (s + k) ++ blankRows k b.cols pen ++ v.drop e
+    trimNeeded := true }
+
+/-- scroll rows `s..e` of the view down by `n` (capped); never touches the scrollback -/
+def scrollDownSpec (s e n : Nat) (pen : Pen) (b : Buffer) : Buffer :=
+  let k := min n (e - s)
+  let w := b.view.take s ++ blankRows k b.cols pen ++ (b.view.take (e - k)).drop s ++ b.view.drop e
+  let w1 := if s > 0 then unmarkAt w (s - 1) else w
+  { b with view := unmarkAt w1 (e - 1) }
+
+/-! ### command level -/
+
+/-- rows `a..b` flagged as changed -/
+def markRange (d : List Bool) (a b : Nat) : List Bool :=
+  d.take a ++ List.replicate (b - a) true ++ d.drop b
+
+/-- the scroll region scrolled up by `n`; cursor, modes, everything else as before -/
+def regionUp (t : Terminal) (n : Nat) : Terminal :=
+  { t with buffer := scrollUpSpec t.topMargin (t.bottomMargin + 1) n t.pen t.buffer
+           dirtyLines := markRange t.dirtyLines t.topMargin (t.bottomMargin + 1) }
+
+def regionDown (t : Terminal) (n : Nat) : Terminal :=
+  { t with buffer := scrollDownSpec t.topMargin (t.bottomMargin + 1) n t.pen t.buffer
+           dirtyLines := markRange t.dirtyLines t.topMargin (t.bottomMargin + 1) }
+
+/-- carriage return -/
+def toCol0 (t : Terminal) : Terminal :=
+  { t with cursor := { t.cursor with col := 0 }, pendingWrap := false }
+
+/-- move to another row (the cursor leaves the wrap-pending column) -/
+def toRow (t : Terminal) (row : Nat) : Terminal :=
+  { t with cursor := { t.cursor with col := min t.cursor.col (t.cols - 1), row := row }
+           pendingWrap := false }
+
+/-- index: one row down; on the bottom margin the region scrolls and the cursor stays -/
+def down1 (t : Terminal) : Terminal :=
+  if t.cursor.row = t.bottomMargin then regionUp t 1
+  else if t.cursor.row + 1 < t.rows then toRow t (t.cursor.row + 1)
+  else t
+
+/-- reverse index: one row up; on the top margin the region scrolls down and the cursor stays -/
+def up1 (t : Terminal) : Terminal :=
+  if t.cursor.row = t.topMargin then regionDown t 1
+  else if t.cursor.row > 0 then toRow t (t.cursor.row - 1)
+  else t
+
+/-- IL/DL act on the rows from the cursor down to the bottom margin, or down to the last row when
+    the cursor is below the region -/
+def lineRange (t : Terminal) : Nat × Nat :=
+  (t.cursor.row, if t.cursor.row ≤ t.bottomMargin then t.bottomMargin + 1 else t.rows)
+
+def insertLines (t : Terminal) (n : Nat) : Terminal :=
+  { t with buffer := scrollDownSpec (lineRange t).1 (lineRange t).2 n t.pen t.buffer
+           dirtyLines := markRange t.dirtyLines (lineRange t).1 (lineRange t).2 }
+
+def deleteLines (t : Terminal) (n : Nat) : Terminal :=
+  { t with buffer := scrollUpSpec (lineRange t).1 (lineRange t).2 n t.pen t.buffer
+           dirtyLines := markRange t.dirtyLines (lineRange t).1 (lineRange t).2 }
+
+/-- does DECSTBM `top;bottom` (after defaults) name a valid region?  `1 ≤ top < bottom ≤ rows` -/
+def validMargins (rows top bottom : Nat) : Bool :=
+  1 ≤ asUsize top 1 && asUsize top 1 < asUsize bottom rows && asUsize bottom rows ≤ rows
+
+/-- margins after DECSTBM -/
+def marginsAfter (t : Terminal) (top bottom : Nat) : Nat × Nat :=
+  if validMargins t.rows top bottom then (asUsize top 1 - 1, asUsize bottom t.rows - 1)
+  else (t.topMargin, t.bottomMargin)
+
+/-- DECSTBM: margins set only when valid; the cursor is homed in both cases (to the top margin in
+    origin mode, else to row 0) -/
+def setMargins (t : Terminal) (top bottom : Nat) : Terminal :=
+  let m := marginsAfter t top bottom
+  { t with topMargin := m.1, bottomMargin := m.2
+           cursor := { t.cursor with col := 0, row := if t.originMode then m.1 else 0 }
+           pendingWrap := false }
+
+/-- functions this specification covers -/
+def coveredScroll : Function → Bool
+  | .lf | .nel | .ri | .su _ | .sd _ | .il _ | .dl _ | .decstbm _ _ | .cr => true
+  | _ => false
+
+/-- the state after a covered function -/
+def scrollCmdSpec (t : Terminal) : Function → Terminal
+  | .lf => if (down1 t).newLineMode then toCol0 (down1 t) else down1 t
+  | .nel => toCol0 (down1 t)
+  | .ri => up1 t
+  | .su n => regionUp t (asUsize n 1)
+  | .sd n => regionDown t (asUsize n 1)
+  | .il n => insertLines t (asUsize n 1)
+  | .dl n => deleteLines t (asUsize n 1)
+  | .decstbm top bottom => setMargins t top bottom
+  | .cr => toCol0 t
+  | _ => t
+
+/-- does `f`, executed in `t`, actually scroll (or set margins)?  Used for the evidence counters. -/
+def scrolls (t : Terminal) : Function → Bool
+  | .lf | .nel => t.cursor.row == t.bottomMargin
+  | .ri => t.cursor.row == t.topMargin
+  | .su _ | .sd _ | .il _ | .dl _ | .decstbm _ _ => true
+  | _ => false
+
+/-! ### who may change the scrollback -/
+
+/-- functions that can change the lines above the view: a scroll-up of a range starting at row 0
+    (LF family / NEL on the bottom margin, SU, DL, a wrapping Print / Rep), the hard reset, and the
+    buffer switches (DECSET/DECRST; XTWINOPS would resize but is inert) -/
+def mayChangeScrollback : Function → Bool
+  | .lf | .nel | .su _ | .dl _ | .print _ | .rep _ | .ris | .decset _ | .decrst _ | .xtwinops _ _ => true
+  | _ => false
+
+/-- functions after which the scrollback need not extend the previous one: hard reset and buffer
+    switches (which replace / reflow the buffer) -/
+def replacesBuffer : Function → Bool
+  | .ris | .xtwinops _ _ => true
+  | .decset ms | .decrst ms =>
+    ms.any fun m => m == .altScreenBuffer || m == .saveCursorAltScreenBuffer
+  | _ => false
+
+/-! ### oracle -/
+
+/-- fold the command specification over the emitted functions; the flag records whether any of
+    them really scrolled; `none` as soon as a function is not covered or the invariant is lost -/
+def foldCmd : List Function → Terminal → Bool → Option (Terminal × Bool)
+  | [], t, nt => some (t, nt)
+  | f :: fs, t, nt =>
+    if coveredScroll f && TInv t then foldCmd fs (scrollCmdSpec t f) (nt || scrolls t f) else none
+
+def checkStep (ev : StepEv) : List Verdict :=
+  if ev.kind == .resize then [] else
+  let p := ev.prev.terminal
+  let n := ev.next.terminal
+  let cmd : List Verdict :=
+    if ev.funs.isEmpty then [] else
+    match foldCmd ev.funs p false with
+    | some (exp, nt) => [check "scroll-command-spec" nt (n == afterCall ev.kind exp)]
+    | none => []
+  let quiet : List Verdict :=
+    if !ev.funs.isEmpty && ev.funs.all (fun f => !mayChangeScrollback f) && TInv p then
+      [check "no-other-function-feeds-scrollback" true
+        (n.buffer.sb == (afterCall ev.kind p).buffer.sb && n.otherBuffer.sb == p.otherBuffer.sb)]
+    else []
+  let hist : List Verdict :=
+    if p.activeBufferType == .primary && p.buffer.limit.isNone && !ev.funs.any replacesBuffer then
+      [check "scrollback-only-appended" (n.buffer.sb != p.buffer.sb)
+        (p.buffer.sb.isPrefixOf n.buffer.sb)]
+    else []
+  let alt : List Verdict :=
+    if n.activeBufferType == .alternate && ev.kind.finishes then
+      [check "alternate-screen-keeps-no-scrollback" true (n.buffer.sb.isEmpty)]
+    else []
+  cmd ++ quiet ++ hist ++ alt
 
 def checkNew (_cols _rows : Nat) (_lim : Option Nat) (_st : Vt) : List Verdict := []
 
